@@ -31,6 +31,7 @@ CASES = {   # function -> parameter kinds
     "str_concat": ["str", "str"], "chr_class": ["byte"], "bytes_of_list": ["byte", "byte"], "loop_sum": ["int"],
     "ternary": ["int"], "tuple_ret": ["int", "bytes"], "negative_index_slice": ["bytes"], "length_guard": ["bytes"],
     "all_bytes_small": ["bytes"], "any_byte_zero": ["bytes"], "any_nonzero": ["zbytes"], "all_nonzero": ["zbytes"],
+    "starts_b": ["bytes"], "divmod_const": ["int"], "reversed_bytes": ["bytes"], "listcomp_bytes": ["bytes"],
 }
 REPO_CASES = [   # (file, qualname, [kinds], native accessor, extra parameter specs)
     ("ledger/pin.py", "BasePin.is_valid", ["bytes", "bool"], lambda: importlib.import_module("ledger.pin").BasePin.is_valid,
@@ -100,6 +101,10 @@ def differs(v, want):
         return True if not isinstance(want, bytes) else tm.Not(tm.Eq(v.term, tm.BytesLit(want)))
     if k == "str":
         return True if not isinstance(want, str) else tm.Not(tm.Eq(v.term, tm.Str(want)))
+    if k == ("list", "int"):
+        if not (isinstance(want, list) and all(isinstance(x, int) and not isinstance(x, bool) for x in want)):
+            return True
+        return tm.Not(tm.And(tm.Eq(tm.Len(v.term), tm.Int(len(want))), *[tm.Eq(tm.Nth(v.term, tm.Int(i)), tm.Int(x)) for i, x in enumerate(want)]))
     return True
 
 
